@@ -1,2 +1,92 @@
-(** C07.  Only statements, [exact], and Print Assumptions. *)
-From Sheens Require Import Model.Step.
+(** C07 - Processing is total: failures become error states or errors,
+    never crashes.  Only statements, [exact], and Print Assumptions.
+
+    The model functions [step] and [walk] (Model/Step.v) are total Gallina
+    functions over EVERY specification, state (unknown node, absent
+    bindings: [st_bs = None]), message list, action/guard behaviour [run]
+    (error with and without a partial Execution, null results) and control
+    (the harness passes no control in a third of the calls; the model then
+    uses the generated default limit).  Their correspondence with
+    Spec.Step / Spec.Walk - run under recover() and a watchdog - is what
+    ties "the model returns normally" to "the Go code returns normally".
+    What is proved here is the second sentence of the property: every
+    failure is surfaced, as a returned error or as a transition to an
+    error-handling node whose bindings carry the diagnostics. *)
+From Sheens Require Import Model.Step Spec.WalkSpec Proofs.StepFacts Proofs.EngineFacts Proofs.WalkProofs.
+
+Section C07.
+Variable action : Type.
+Variable run : action -> option bindings -> exec_raw.
+Variable s : spec action.
+
+(** inside a walk every step error becomes a transition to the error node
+    whose bindings record the error, the node at which it occurred and the
+    bindings at that point *)
+Theorem C07_step_error_surfaced :
+  forall st p e,
+  so_err (step action run s st (peek p)) = Some e -> st_node st <> error_node_literal ->
+  exists bs', sd_to (fst (walk_stride action run s st p)) = Some (mk_state error_node_literal (Some bs')) /\
+              lookup "error" bs' = Some err_text /\
+              lookup "lastNode" bs' = Some (JStr (st_node st)) /\
+              lookup "lastBindings" bs' = Some (JObj (copy_bs (st_bs st))).
+Proof. exact (walk_error_surfaced action run s). Qed.
+
+(** an action failure is routed by the error settings: returned error,
+    designated node carrying the error text, or error bindings handed to the
+    node's branches *)
+Theorem C07_action_failure_routed :
+  forall st pending n a r,
+  sp_compiled s = true -> find_node (st_node st) (sp_nodes s) = Some n ->
+  nd_action n = Some a -> is_consumer action (nd_branching n) = false ->
+  func_exec action run a (st_bs st) = (r, true) ->
+  let ebs := bset "error" err_text (bset "actionError" err_text (copy_bs (st_bs st))) in
+  lookup "error" ebs = Some err_text /\ lookup "actionError" ebs = Some err_text /\
+  (forall k v, k <> "error" -> k <> "actionError" ->
+               lookup k (copy_bs (st_bs st)) = Some v -> lookup k ebs = Some v) /\
+  match sp_err_branches s, String.eqb (sp_err_node s) "" with
+  | false, true => step action run s st pending = mk_step_out None (Some EAction) false
+  | false, false =>
+      step action run s st pending =
+      mk_step_out (Some (mk_stride (copy_state st) (Some (mk_state (sp_err_node s) (Some ebs))) None (snd r)))
+                  None false
+  | true, _ => step action run s st pending = continue_ action run n st pending true (Some ebs) (snd r)
+  end.
+Proof. exact (action_error_routed action run s). Qed.
+
+(** an action node that follows no branch goes to the error node with the diagnostics *)
+Theorem C07_no_branch_surfaced :
+  forall n st pending bs em sd,
+  so_stride (continue_ action run n st pending true bs em) = Some sd ->
+  (exists st', sd_to sd = Some (copy_state st') /\
+               fst (fst (consider action run (nd_branching n) bs pending)) = TTo st') \/
+  (exists bs', sd_to sd = Some (mk_state error_node_literal (Some bs')) /\
+               lookup "error" bs' = Some no_branch_text /\
+               lookup "lastNode" bs' = Some (JStr (st_node st)) /\
+               lookup "lastBindings" bs' = Some (JObj (copy_bs (st_bs st)))).
+Proof. exact (action_no_branch_surfaced action run). Qed.
+
+(** a walk always returns a proper stop reason within its step bound *)
+Theorem C07_walk_returns :
+  forall bp limit st msgs w amb,
+  Forall (fun m => m <> JNull) msgs -> walk action run s bp limit st msgs = (w, amb) ->
+  w_stopped w <> InternalError /\ List.length (w_strides w) <= limit.
+Proof.
+  intros bp limit st msgs w amb Hn Hw. split.
+  - exact (walk_never_internal_error action run s bp limit st msgs w amb Hn Hw).
+  - exact (walk_step_bound action run s bp limit st msgs w amb Hn Hw).
+Qed.
+End C07.
+
+Print Assumptions C07_step_error_surfaced.
+Print Assumptions C07_action_failure_routed.
+Print Assumptions C07_no_branch_surfaced.
+Print Assumptions C07_walk_returns.
+
+(** non-vacuity: a state without bindings at an unknown node *)
+From Sheens Require Import Model.Action.
+Example C07_nonvacuous :
+  let s := mk_spec (action := act) [] false "" true in
+  let sd := fst (walk_stride act run_act s (mk_state "nowhere" None) []) in
+  option_map st_node (sd_to sd) = Some "error" /\
+  option_map (fun st' => lookup "lastNode" (copy_bs (st_bs st'))) (sd_to sd) = Some (Some (JStr "nowhere")).
+Proof. vm_compute. auto. Qed.
